@@ -43,11 +43,11 @@ Section Wfd.
         { destruct Hwf as [_ [_ [Ha|[_ Ha]]]]; lia. }
         destruct (GeneralFS.split_fused_spec m s (coefs s) (am s) [] [] [] Hlen)
           as [ka [kc [out' [Hsp [Hlk [Hp _]]]]]].
-        rewrite Hsp in H. cbn in H.
+        rewrite Hsp in H. cbn [bind app] in H. fold (kept_head s ka kc) in H.
         apply (IH _ _ Hst) in H.
         eapply Permutation_trans; [exact H|].
-        rewrite <- app_comm_cons, !shells_cfuns_cons, !shells_cfuns_app, shells_cfuns_cons.
-        rewrite shell_cfuns_zip by exact Hlk. rewrite (shell_cfuns_fused s El).
+        rewrite !shells_cfuns_app, shells_cfuns_cons.
+        rewrite kept_head_cfuns by exact Hlk. rewrite (shell_cfuns_fused s El).
         rewrite <- !app_assoc.
         eapply Permutation_trans; [apply Permutation_app_swap_app|].
         apply Permutation_app_head. rewrite !app_assoc. apply Permutation_app_tail. exact Hp.
